@@ -117,7 +117,7 @@ fn main() {
             let thorough = arg(&args, "--tier", "quick") == "thorough";
             let jobs: usize = arg(&args, "--jobs", "16").parse().unwrap();
             let variants: Vec<String> = arg(&args, "--variants", "file,mapped,memory").split(',').map(|x| x.to_string()).collect();
-            let rep = damrun::run(seed, &out, thorough, jobs, &variants, &arg(&args, "--corpus", "/nonexistent"), n);
+            let rep = damrun::run(seed, &out, thorough, jobs, &variants, &arg(&args, "--corpus", "/nonexistent"), n, &arg(&args, "--guards", "1111"));
             write_lines(&format!("{}/cases.txt", out), &rep.cases);
             write_lines(&format!("{}/impl.txt", out), &rep.imp);
             write_lines(&format!("{}/oracle.txt", out), &rep.oracle);
